@@ -307,13 +307,19 @@ class Indicator(ABC):
             index if index is not None else self._active_index,
         )
 
+    def _owned_names(self) -> set:
+        """Names of every reading this indicator writes: its own and, at any depth,
+        those of its sub and managed indicators"""
+        names = {self.name}
+        for indicator in list(self.sub_indicators.values()) + list(
+            self.managed_indicators.values()
+        ):
+            names |= indicator._owned_names()
+        return names
+
     def purge(self):
         """Remove this indicator value from all Candles"""
-        self._candles.purge(
-            {self.name}
-            | {indicator.name for indicator in self.sub_indicators.values()}
-            | {indicator.name for indicator in self.managed_indicators.values()}
-        )
+        self._candles.purge(self._owned_names())
 
     def recalculate(self):
         """Re-calculate this indicator value for all Candles"""
